@@ -1197,10 +1197,12 @@ def run_config(ctx):
 
 # ============================================================== driver
 def run(ctx):
-    run_stages(ctx)
-    run_hash(ctx)
-    run_collections(ctx)
-    run_config(ctx)
+    import time
+    for name, part in (('stages', run_stages), ('hash', run_hash), ('collections', run_collections),
+                       ('config', run_config)):
+        t = time.time()
+        part(ctx)
+        ctx.notes.append(f'{name}: {time.time() - t:.1f}s (started {t - ctx.t0:.1f}s after the check began)')
     if not ctx.model_ok:
         ctx.notes.append('model did not build: implementation-only predicates were evaluated')
 
